@@ -105,7 +105,11 @@ def _replay_failure(stage, h, res, log_path, jobs, prop=None):
     hit = None
     for tname, ttext in gen:
         t = nat["tests"].get(tname)
-        if t and t["failed"] and any(l and l in t["message"] for l in labels):
+        # the native run stops at its FIRST failing obligation, which may be another one of the same
+        # harness than the one CBMC lists (e.g. where a stub's bookkeeping is not active natively):
+        # any labelled property obligation (Cxx/...) or the same built-in check counts as reproduction
+        if t and t["failed"] and (any(l and l in t["message"] for l in labels)
+                                  or re.search(r"\bC\d\d/[\w<>=.,:*^+\-\[\]()/]+", t["message"])):
             hit = (tname, ttext, t["message"])
             break
     detail.update({"generated_tests": len(gen), "native_built": nat["built"],
